@@ -7,6 +7,7 @@
 -/
 import Msmart.Driver.AC
 import Msmart.Model.Device
+import Msmart.Spec.PropertyStore
 
 namespace Msmart.Driver
 open Msmart Msmart.Model
@@ -111,6 +112,33 @@ def devOp (op : String) (t : List String) : Option String :=
     match err with
     | none => some ("ok " ++ showDev r.dev ++ sent)
     | some (e, remaining) => some (s!"err:{e} failed_op={ops.length - remaining - 1} " ++ showDev r.dev ++ sent)
+  | _ => none
+
+end Msmart.Driver
+
+namespace Msmart.Driver
+open Msmart
+
+/-- store state on the wire: `profile=9+10 vals=9:00;227:0100` -/
+def showStore (s : Spec.Store) : String :=
+  "profile=" ++ "+".intercalate (s.profile.map toString) ++
+  " vals=" ++ ";".intercalate (s.vals.map (fun kv => toString kv.1 ++ ":" ++ toHex kv.2))
+
+def parseStore (t : List String) : Spec.Store :=
+  let profile := ((kvGet t "profile").getD "").splitOn "+" |>.filterMap String.toNat?
+  let vals := (((kvGet t "vals").getD "").splitOn ";").filterMap (fun kv =>
+    match kv.splitOn ":" with
+    | [k, v] => do let n ← k.toNat?; let b ← ofHex v; pure (n, b)
+    | _ => none)
+  ⟨profile, vals⟩
+
+def storeOp (op : String) (t : List String) : Option String :=
+  match op with
+  | "store_new" =>
+    some (showStore (Spec.newStore (((kvGet t "profile").getD "").splitOn "+" |>.filterMap String.toNat?)))
+  | "store_step" =>
+    let (s', resp) := Spec.storeStep (parseStore t) (kvHex t "body")
+    some (showStore s' ++ " resp=" ++ (match resp with | some r => toHex r | none => "none"))
   | _ => none
 
 end Msmart.Driver
